@@ -647,7 +647,8 @@ pub fn gen_c05(rng: &mut Rng, tier: Tier) -> C05Plan {
         let mut c = cfg.clone();
         let mut tries = 0;
         loop {
-            let spec = gen_picture(rng, &c, fl.clone(), ptype, w, h, tr);
+            let flq = requalify(rng, &fl, w, h);
+            let spec = gen_picture(rng, &c, flq, ptype, w, h, tr);
             let (pp, _) = PlanPic::from_spec(spec, vec![], "valid");
             if pp.bytes.len() <= limit || tries > 6 {
                 if ptype != PType::Disposable {
